@@ -1,12 +1,11 @@
 (* C13: lemmas about the module-level model (ModuleModel.v): links stay consistent (no reference to a destroyed
    object, children/parents mirror each other), atoms are accounted for, reset destroys everything. *)
 From Coq Require Import ZArith List Bool Arith Lia.
-From CV Require Import C13.DepsModel C13.DepsProofs C13.ModuleModel.
+From CV Require Import C13.DepsModel C13.InvModel C13.DepsProofs C13.ModuleModel.
 Import ListNotations.
 Open Scope nat_scope.
 
 (* ------------------------------------------------------------------------------------------ lists *)
-Definition cnt (x : nat) (l : list nat) : nat := count_occ Nat.eq_dec l x.
 
 Lemma cnt_app x l1 l2 : cnt x (l1 ++ l2) = cnt x l1 + cnt x l2.
 Proof. unfold cnt. apply count_occ_app. Qed.
